@@ -131,6 +131,7 @@ PLANS["C01"] = {
                                spread(seed, "C01d", N(tier, 20, 400), ["QF_IDL", "QF_RDL", "QF_IDL", "QF_RDL", "QF_UFIDL"], "answers", mode="cnf", nnum=5, maxconst=2, n_atoms=10) +
                                spread(seed, "C01e", N(tier, 30, 600), ["QF_UF"], "answers", mode="diamond") +
                                spread(seed, "C01u", N(tier, 30, 600), ["QF_LRA", "QF_LRA", "QF_LIA"], "answers", mode="guarded", nnum=6) +
+                               spread(seed, "C01y", N(tier, 30, 600), ["QF_UFLRA", "QF_UFLRA", "QF_UFLIA"], "answers", mode="eqsys") +
                                spread(seed, "C01g", N(tier, 40, 800), ["QF_IDL", "QF_RDL", "QF_IDL", "QF_RDL", "QF_UFIDL"], "answers", mode="dlgraph", nnum=5) +
                                spread(seed, "C01b", N(tier, 26, 600), ALL_LOGICS, "answers", more_cfgs=["la", "ghost"]),
     "rule": "random incremental scripts over all supported logic families; the kernel (TLC) evaluates candidate models "
@@ -154,6 +155,7 @@ PLANS["C02"] = {
 PLANS["C03"] = {
     "jobs": lambda seed, tier: spread(seed, "C03", N(tier, 150, 3000), MODEL_LOGICS, "models") +
                                spread(seed, "C03i", N(tier, 60, 1200), ["QF_UFLRA", "QF_UFLIA"], "models", mode="interface") +
+                               spread(seed, "C03y", N(tier, 30, 600), ["QF_UFLRA", "QF_UFLRA", "QF_UFLIA"], "models", mode="eqsys") +
                                spread(seed, "C03s", N(tier, 90, 1800), ["QF_LRA", "QF_LRA", "QF_LIA"], "models", mode="sums", nnum=4, box=False),
     "rule": "satisfiable-biased scripts with get-model, get-value and get-assignment after every check; non-trivial = a model was printed",
 }
@@ -306,6 +308,7 @@ PLANS["C30"] = {
                                spread(seed, "C30d", N(tier, 20, 400), ["QF_RDL", "QF_UFRDL", "QF_LRA", "QF_RDL"], "configs", mode="cnf", maxconst=1,
                                       cfgs=["proofs", "cores", "seed", "itp"], timeout=20) +
                                spread(seed, "C30u", N(tier, 30, 600), ["QF_LRA"], "configs", mode="guarded", nnum=6, cfgs=["proofs", "seed"], timeout=20) +
+                               spread(seed, "C30y", N(tier, 40, 800), ["QF_UFLRA"], "configs", mode="eqsys", cfgs=["seed", "nosubst", "cores"], timeout=20) +
                                spread(seed, "C30g", N(tier, 40, 800), ["QF_RDL", "QF_UFRDL", "QF_RDL"], "configs", mode="dlgraph", nnum=5,
                                       cfgs=["proofs", "cores", "seed"], timeout=20),
     "rule": "every check-sat of the non-integer script space under all engines and tracking options and in push/pop histories "
